@@ -24,6 +24,9 @@ def plan(tier):
     return [{"variant": "plain", "workers": 16, "cases": 8}]
 
 
+S_ABORT = ()
+
+
 def run(ctx):
     import sys, math
     import numpy as np
@@ -134,6 +137,29 @@ def run(ctx):
                 strictly_interior(zl, d, "zl", c, key + ":unknown-iterate-not-interior")
             for nm in ("primal slack", "dual slack"):
                 c.require(sol.get(nm) is not None and sol[nm] > 0, key + ":unknown-slack-field-not-positive", "field %r = %r" % (nm, sol.get(nm)))
+            # 'primal infeasibility' = ||(A x - b, f(x) + snl, G x + sl - h)|| / pres0 recomputed from the returned iterate
+            # (pres0 = max(1, the same norm at the start x0 = F(), s = e), as documented and computed by cpl)
+            try:
+                e_ = cone.identity(d)
+                Gs_ = np.column_stack([cone.symmetrize(nlpr.G[:, j], d) for j in range(nlpr.n)]) if nlpr.n else nlpr.G
+                hs_ = cone.symmetrize(nlpr.h, d)
+                f0_ = nlpr.fvals(nlpr.x0)
+                fn0 = f0_ if entry == "cpl" else f0_      # cp: first entry is s0 + f0(x0) - t with t = 0
+                ry0 = nlpr.A @ nlpr.x0 - nlpr.b; rz0 = e_ + Gs_ @ nlpr.x0 - hs_
+                pres0 = max(1.0, math.sqrt(float(ry0 @ ry0) + float((1.0 + fn0) @ (1.0 + fn0)) + cone.sdot(rz0, rz0, d)))
+                fx = nlpr.fvals(x)
+                fnl_ = fx if entry == "cpl" else fx[1:]
+                ry_ = nlpr.A @ x - nlpr.b
+                rzl_ = cone.symmetrize(sl, d) + Gs_ @ x - hs_
+                prim_ = math.sqrt(float(ry_ @ ry_) + float((snl + fnl_) @ (snl + fnl_)) + cone.sdot(rzl_, rzl_, d))
+                pf = sol.get("primal infeasibility")
+                if entry == "cpl":
+                    ctx.count("check.unknown-field-primal-infeasibility")
+                    c.require(pf is not None and abs(pf - prim_ / pres0) <= 1e-6 * max(pf, prim_ / pres0) + 1e-12,
+                              key + ":unknown-field-primal-infeasibility",
+                              "'primal infeasibility' %r, recomputed from the returned iterate %r" % (pf, prim_ / pres0))
+            except S_ABORT:
+                pass
             # self-consistency of the recomputable fields
             gapk = float(snl @ znl) + cone.sdot(cone.symmetrize(sl, d), cone.symmetrize(zl, d), d)
             gf = sol.get("gap")
